@@ -1,4 +1,5 @@
 """C06 — Operator string stays a consistent periodic world-line configuration."""
+from checks import big_scale
 from checks import full_step
 from checks import extra_audits
 from checks import api_cov
@@ -63,4 +64,5 @@ def main(ck):
     full_step.run(ck)   # whole-timestep exact trajectories, Ising and generic sampler
     api_cov.run(ck, "c06")   # otherwise unexercised public API, model-free oracles of this property
     scale_inv.run(ck, "c03")   # power-of-two unit change: identical trajectory, energies exactly scaled (model-free twin oracle)
+    big_scale.run(ck, "longstring")   # large-scale regime (>65536 bonds/ops/slots, release semantics): model-free oracles of the property statements
     return ck.finish(RULE)
